@@ -116,7 +116,7 @@ PROPS = {
         "timeout": {"quick": 400, "thorough": 3600},
     },
     "C09": {
-        "suites": ["c09", "c09sub", "c20cache", "scope-c07seq", "allocfault", "c09rw", "racescope"],
+        "suites": ["c09", "c09sub", "c20cache", "scope-c07seq", "allocfault", "allocpanic", "c09rw", "racescope"],
         "assumptions": COMMON_ASSUME + [
             "data-race freedom in the sense of the Go memory model is not expressible in the interleaving model; it is supported by -race runs only",
             "a parked thread holds no lock between the read-locked probe and the write lock (tie facts)",
@@ -161,7 +161,7 @@ PROPS = {
         "trusted_base": ["Model.Scope is tied to scope.go / scope_registry.go by the differential on random programs (plus the facts on fullyQualifiedName and the report call)"],
     },
     "C10": {
-        "suites": ["scope-c10", "c10instr", "c10race", "allocfault"],
+        "suites": ["scope-c10", "c10instr", "c10race", "scopeseq", "allocfault"],
         "assumptions": COMMON_ASSUME + [
             "Model.Scope is sequential: one API call at a time (concurrency of these paths is C01/C02/C07/C09)",
             "the registry shard of a request is observed through a shim and given to the model as an input",
